@@ -24,7 +24,11 @@ changes the model the theorems of coq/C06/Properties.v are checked against):
   * record selection: the comparison of walk_frame's `while .. add_rules[count].address <= addr` loop (mod.rs), whether
     finish_item sorts the delta records (parser.rs); CfiRules' field order / derive(Ord) and StackInfoCfi::memory_range
     (types.rs) are pinned.
-  * minidump-unwind/src/lib.rs: the nine FrameWalker callbacks of CfiStackWalker are pinned (signature + body)."""
+  * minidump-unwind/src/lib.rs: the nine FrameWalker callbacks of CfiStackWalker are pinned (signature + body).
+  * size_of::<Register>() of CONTEXT_ARM / CONTEXT_MIPS (context.rs) and of Mips32Context (mips.rs) -> cfi_*_reg_bytes;
+    Mips32Context's CpuContext impl (callee values `as u32`), the CONTEXT_MIPS64 flag test and the CFI dispatch of
+    mips.rs get_caller_frame, CONTEXT_ARM::register_is_valid and the trait default are pinned.
+  * StackInfoCfi: field order and derive(PartialEq) are pinned (the == of the record table's merge step)."""
 import os
 import re
 import sys
@@ -656,6 +660,16 @@ if not {"Ord", "PartialOrd", "Eq", "PartialEq"} <= {x.strip() for x in m_.group(
 flds = re.findall(r"pub (\w+): (\w+),", re.sub(r"///[^\n]*", "", m_.group(2)))
 if flds != [("address", "u64"), ("rules", "String")]:
     die("types.rs: CfiRules fields changed (the derived Ord compares them in order): %s" % flds)
+# StackInfoCfi: field order and derive(PartialEq) (cfi_rec_eqb of C06/FileTable.v = the derived ==, which decides
+# whether into_rangemap_safe merges two records or drops the later one)
+m_ = re.search(r"#\[derive\(([^)]*)\)\]\s*pub struct StackInfoCfi \{(.*?)\}", types, re.S)
+if not m_:
+    die("types.rs: struct StackInfoCfi with its derive not found")
+if not {"Eq", "PartialEq"} <= {x.strip() for x in m_.group(1).split(",")}:
+    die("types.rs: StackInfoCfi no longer derives PartialEq")
+flds = re.findall(r"pub (\w+): ([\w<>]+),", re.sub(r"///[^\n]*", "", m_.group(2)))
+if flds != [("init", "CfiRules"), ("size", "u32"), ("add_rules", "Vec<CfiRules>")]:
+    die("types.rs: StackInfoCfi fields changed: %s" % flds)
 m_ = re.search(r"impl StackInfoCfi \{\s*pub fn memory_range\(&self\) -> Option<Range<u64>> \{(.*?)\n    \}", types, re.S)
 if not m_ or nows(m_.group(1)) != "ifself.size==0{returnNone;}Some(Range::new(self.init.address,self.init.address.checked_add(self.sizeasu64)?-1,))":
     die("types.rs: StackInfoCfi::memory_range changed")
